@@ -377,6 +377,9 @@ func structName(t types.Type) string {
 
 func (st *State) freshVal(t types.Type, hint string) Val {
 	x := st.x
+	if b, ok := t.(*types.Basic); ok && b.Kind() == types.Invalid {
+		return Term{S: "false", Sort: sBool} // unused component of a range tuple
+	}
 	switch u := under(t).(type) {
 	case *types.Struct:
 		if _, isTP := t.(*types.TypeParam); !isTP {
@@ -582,6 +585,26 @@ func (st *State) loadAt(h *heapSnap, key string, ref Term, t types.Type, emb fun
 		st.allocatedBefore(v)
 	}
 	return v
+}
+
+// boundRefs applies allocatedBefore to every reference inside a (possibly composite) value.
+func (st *State) boundRefs(v Val) {
+	switch tv := v.(type) {
+	case Term:
+		if tv.Sort == sRef {
+			st.allocatedBefore(tv)
+		}
+	case *SliceV:
+		st.allocatedBefore(tv.Arr)
+	case *StructV:
+		for _, f := range tv.F {
+			st.boundRefs(f)
+		}
+	case TupleV:
+		for _, f := range tv {
+			st.boundRefs(f)
+		}
+	}
 }
 
 // allocatedBefore records that a reference read from the heap was allocated no later than now, hence differs
